@@ -19,6 +19,7 @@ package autodiff
 /* -------------------------------------------------------------------------- */
 
 import "bufio"
+import "fmt"
 import "io"
 import "math"
 import "os"
@@ -222,4 +223,22 @@ func bufioReadLine(reader *bufio.Reader) (string, error) {
   }
   // remove newline character
   return l[0:len(l)-1], err
+}
+
+/* -------------------------------------------------------------------------- */
+
+// Check that a decoded list of sparse indices is valid for a container
+// of length n, i.e. every index is within bounds and appears only once.
+func checkSparseIndices(indices []int, n int) error {
+  seen := make(map[int]bool, len(indices))
+  for _, k := range indices {
+    if k < 0 || k >= n {
+      return fmt.Errorf("index out of bounds")
+    }
+    if seen[k] {
+      return fmt.Errorf("index appeared multiple times")
+    }
+    seen[k] = true
+  }
+  return nil
 }
